@@ -360,6 +360,9 @@ class CallMixin:
         """An unknown callable (callback handed in from outside).  Its invocation is
         recorded in the ghost log; A-CALLBACK: it returns normally and does not
         modify the state of the object under verification (re-entrancy is not modelled)."""
+        known = st.ghost.get('$callables', {}).get(z3.simplify(f.t).get_id())
+        if known is not None and known is not f:
+            return self.call(st, known, args, kwargs, node)
         h = self.reg.externals.get('$opaque_call')
         if h is not None:
             return h(self, st, [f] + list(args), kwargs, node)
@@ -380,7 +383,7 @@ class CallMixin:
     def construct(self, st, c, args, kwargs, node):
         key = c.key
         short = key.split(':')[1]
-        h = self.reg.externals.get('new:' + key) or self.reg.externals.get('new:' + short)
+        h = self.reg.externals.get('new:' + key) or self.reg.externals.get('new:' + short) or self.reg.externals.get(key.replace(':', '.'))
         if h is not None:
             self.used_externals.add('new:' + key)
             return h(self, st, args, kwargs, node)
